@@ -657,3 +657,80 @@ def case_far(ctx, cfg):
         ctx.trace()
         if e is not None or not match_points([np.asarray(x.array) for x in res], [np.array(a, dtype=complex), np.array(b, dtype=complex)], 1e-6):
             ctx.fail("far-sphere:secant", "intersect", {**inputs, "through": [a, b]}, [a, b], e if e is not None else [x.array for x in res])
+
+
+# ---------------------------------------------------------------------------------------------------
+# contains(x, tol=...): the optional tolerance is the acceptance threshold for the quadratic form value, for the point
+# quadric and for the dual quadric alike. Lattice points / hyperplanes in three dyadic representatives give exact form
+# values; every tolerance of a ladder is judged unless it is within a factor 2 of the exact value (margin rule).
+
+TOLS = (None, 2.0 ** -30, 2.0 ** -12, 2.0 ** -4, 3.0)
+
+
+def enum_tol(tier, seed):
+    conics = {
+        "unit-circle": [[1, 0, 0], [0, 1, 0], [0, 0, -1]],
+        "hyperbola": [[0, 1, 0], [1, 0, 0], [0, 0, -2]],
+        "ellipse": [[1, 0, -1], [0, 4, 0], [-1, 0, -3]],
+        "parabola": [[2, 0, 0], [0, 0, -1], [0, -1, 0]],
+    }
+    quads = {
+        "sphere": [[1, 0, 0, 0], [0, 1, 0, 0], [0, 0, 1, 0], [0, 0, 0, -1]],
+        "hyperboloid": [[1, 0, 0, 1], [0, -1, 0, 0], [0, 0, 2, 0], [1, 0, 0, -2]],
+    }
+    for nm, A in list(conics.items()) + list(quads.items()):
+        for dual in (False, True):
+            for s in (0, -5, -10) if tier == "quick" else (0, -3, -5, -8, -10, -13):
+                for form in ("single", "collection"):
+                    yield (nm, tuple(map(tuple, A)), dual, s, form)
+
+
+@family("C14", "contains_explicit_tolerance", enum_tol)
+def case_tol(ctx, cfg):
+    import geometer as G
+
+    nm, A, dual, s, form = cfg
+    A = np.array(A, dtype=float)
+    n = len(A)
+    q = G.Conic(A) if n == 3 else G.Quadric(A)
+    if dual:
+        q, e = ctx.call(lambda: q.dual)
+        if e is not None:
+            ctx.fail("tol:dual-raises", "dual", {"quadric": nm}, "dual quadric", e)
+            return
+    D = np.array(q.array, dtype=float)  # the form the predicate is stated about
+    vecs = [v for v in lattice(n, 2 if n == 3 else 1)]
+    sc = 2.0 ** s
+    mk = (lambda a: (G.Line(a) if n == 3 else G.Plane(a))) if dual else (lambda a: G.Point(a))
+    mkc = (lambda a: (G.LineCollection(a) if n == 3 else G.PlaneCollection(a))) if dual else (lambda a: G.PointCollection(a))
+    arrs = [np.array(v, dtype=float) * sc for v in vecs]
+    vals = [float(a @ D @ a) for a in arrs]
+    ctx.state(cfg)
+    for tol in TOLS:
+        t_eff = 1e-8 if tol is None else tol
+        kw = {} if tol is None else {"tol": tol}
+        if form == "single":
+            got = []
+            for a in arrs:
+                r, e = ctx.call(lambda: q.contains(mk(a), **kw))
+                ctx.trace()
+                if e is not None:
+                    ctx.fail(f"tol:raises:{type(e).__name__}", "contains", {"quadric": nm, "dual": dual, "x": a, "tol": tol}, "bool", e)
+                    return
+                got.append(bool(r))
+        else:
+            r, e = ctx.call(lambda: q.contains(mkc(np.array(arrs)), **kw))
+            ctx.trace(len(arrs))
+            if e is not None or np.shape(r) != (len(arrs),):
+                ctx.fail(f"tol:collection:{type(e).__name__ if e is not None else 'shape'}", "contains", {"quadric": nm, "dual": dual, "tol": tol}, "bool array", e if e is not None else list(np.shape(r)))
+                return
+            got = [bool(x) for x in r]
+        for a, v, g in zip(arrs, vals, got):
+            if v != 0 and t_eff / 2 < abs(v) < t_eff * 2:
+                ctx.skipped += 1
+                continue
+            want = abs(v) <= t_eff
+            ctx.tally(f"{'inside' if want else 'outside'}-tolerance")
+            if g != want:
+                ctx.fail(f"tol:{'dual' if dual else 'point'}:{form}:{'default' if tol is None else 'explicit'}", "contains(x, tol)", {"quadric": nm, "dual": dual, "x": a, "tol": tol, "form_value": v}, want, g)
+                return
